@@ -16,6 +16,16 @@ unsigned long strtoul(const char *nptr, char **endptr, int base)
   return nondet_ulong();
 #endif
 }
+#ifdef STRTOL_EXACT     /* concrete texts only (table round trips): exact unsigned decimal value and end position */
+long strtol(const char *nptr, char **endptr, int base)
+{
+  long v = 0; size_t k = 0;
+  (void)base;
+  while (nptr[k] >= '0' && nptr[k] <= '9') { v = v * 10 + (nptr[k] - '0'); k++; }
+  if (endptr) *endptr = (char *)nptr + k;
+  return v;
+}
+#else
 long strtol(const char *nptr, char **endptr, int base)
 {
   size_t len = strlen(nptr), k = nondet_size_t();
@@ -24,4 +34,5 @@ long strtol(const char *nptr, char **endptr, int base)
   if (endptr) *endptr = (char *)nptr + k;
   return (long)nondet_ulong();
 }
+#endif
 #endif
